@@ -13,6 +13,8 @@ package main
 //	viewMethodCalls  every call of a Snapshot/segmentSnapshot method that (transitively) writes a *view*
 //	              field of its receiver (everything except the lock-protected refs / fieldTFRs)
 //	refCalls      the AddRef/DecRef/addRef/decRef call sites per function (the transcribed protocol)
+//	refTakes         every addRef/AddRef: origin of the pointer and, for a pointer read from shared state, whether
+//	                 the read and the addRef share a lock region
 //	snapshotCloses   every Close() of a *Snapshot with the chain of enclosing conditions (release sites, one per path)
 //	closeThenReuse   methods of postingsIterator that Close() their receiver and then overwrite and keep it
 //	poolAccess, recycleCalls, iterSnapshotSets   the facts that keep a recycled postings iterator inside
@@ -762,6 +764,170 @@ func genC04(ctx *Ctx) {
 	}
 	closeReuse = c04DedupSort(closeReuse)
 
+	// every place where a reference is TAKEN (addRef / AddRef): where does the pointer come from, and — when it is
+	// read from shared state (a field path rooted at the receiver or a parameter, e.g. s.root) — does the
+	// addRef lie inside the same Lock/RLock … Unlock/RUnlock region as that read? (position based: a region runs
+	// from a Lock call to the next non-deferred Unlock of the same mutex expression, or to the end of the
+	// function when the Unlock is deferred.) This is what makes "read root + addRef" one atomic event.
+	var refTakes []c04Row
+	for _, n := range names {
+		fn := fns[n]
+		if fn.decl.Body == nil {
+			continue
+		}
+		type lk struct {
+			key      string
+			pos      token.Pos
+			deferred bool
+		}
+		var locks, unlocks []lk
+		type asg struct {
+			pos token.Pos
+			rhs ast.Expr
+		}
+		assigns := map[string][]asg{}
+		type take struct {
+			pos  token.Pos
+			sel  *ast.SelectorExpr
+			meth string
+		}
+		var takes []take
+		var stack []ast.Node
+		ast.Inspect(fn.decl.Body, func(nd ast.Node) bool {
+			if nd == nil {
+				stack = stack[:len(stack)-1]
+				return true
+			}
+			stack = append(stack, nd)
+			switch x := nd.(type) {
+			case *ast.AssignStmt:
+				if len(x.Lhs) == len(x.Rhs) {
+					for i, l := range x.Lhs {
+						if id, ok := l.(*ast.Ident); ok {
+							assigns[id.Name] = append(assigns[id.Name], asg{x.Pos(), x.Rhs[i]})
+						}
+					}
+				} else if len(x.Rhs) == 1 {
+					for _, l := range x.Lhs {
+						if id, ok := l.(*ast.Ident); ok {
+							assigns[id.Name] = append(assigns[id.Name], asg{x.Pos(), x.Rhs[0]})
+						}
+					}
+				}
+			case *ast.ValueSpec:
+				for i, nm := range x.Names {
+					if i < len(x.Values) {
+						assigns[nm.Name] = append(assigns[nm.Name], asg{x.Pos(), x.Values[i]})
+					}
+				}
+			case *ast.CallExpr:
+				sel, ok := x.Fun.(*ast.SelectorExpr)
+				if !ok {
+					return true
+				}
+				deferred := false
+				for _, a := range stack {
+					if _, ok := a.(*ast.DeferStmt); ok {
+						deferred = true
+					}
+				}
+				switch sel.Sel.Name {
+				case "Lock", "RLock":
+					locks = append(locks, lk{g.pkg.Src(sel.X), x.Pos(), deferred})
+				case "Unlock", "RUnlock":
+					unlocks = append(unlocks, lk{g.pkg.Src(sel.X), x.Pos(), deferred})
+				case "addRef", "AddRef":
+					takes = append(takes, take{x.Pos(), sel, sel.Sel.Name})
+				}
+			}
+			return true
+		})
+		region := func(a, b token.Pos) string { // the mutex whose region contains both positions, "" if none
+			for _, l := range locks {
+				if l.deferred || l.pos > a || l.pos > b {
+					continue
+				}
+				end := token.Pos(0)
+				for _, u := range unlocks {
+					if u.key != l.key || u.pos < l.pos {
+						continue
+					}
+					if u.deferred {
+						end = fn.decl.End()
+						break
+					}
+					if end == 0 || u.pos < end {
+						end = u.pos
+					}
+				}
+				if end != 0 && a < end && b < end {
+					return l.key
+				}
+			}
+			return ""
+		}
+		sharedPath := func(e ast.Expr) bool { // a field path (no call) rooted at the receiver or a parameter
+			switch e.(type) {
+			case *ast.SelectorExpr, *ast.IndexExpr:
+			default:
+				return false
+			}
+			isCall := false
+			ast.Inspect(e, func(n ast.Node) bool {
+				if _, ok := n.(*ast.CallExpr); ok {
+					isCall = true
+				}
+				return true
+			})
+			id := c04RootIdent(e)
+			return !isCall && id != nil && (id.Name == fn.recv || fn.params[id.Name])
+		}
+		for _, t := range takes {
+			src, status := "", "-"
+			readPos := t.pos
+			switch x := t.sel.X.(type) {
+			case *ast.Ident:
+				var last *asg
+				for i := range assigns[x.Name] {
+					a := &assigns[x.Name][i]
+					if a.pos < t.pos && (last == nil || a.pos > last.pos) {
+						last = a
+					}
+				}
+				switch {
+				case last == nil:
+					src = "param-or-unassigned"
+				case sharedPath(last.rhs):
+					src = "shared:" + g.pkg.Src(last.rhs)
+					readPos = last.pos
+				case c04FreshStructExpr(last.rhs):
+					src = "fresh"
+				default:
+					if c, ok := last.rhs.(*ast.CallExpr); ok {
+						src = "call:" + g.pkg.Src(c.Fun)
+					} else {
+						src = "other"
+					}
+				}
+			default:
+				if sharedPath(t.sel.X) {
+					src = "shared:" + g.pkg.Src(t.sel.X)
+				} else {
+					src = g.baseClass(fn, t.sel.X)
+				}
+			}
+			if strings.HasPrefix(src, "shared:") {
+				if k := region(readPos, t.pos); k != "" {
+					status = "locked:" + k
+				} else {
+					status = "UNLOCKED"
+				}
+			}
+			refTakes = append(refTakes, c04Row{fn.name, t.meth, g.pkg.Src(t.sel.X), src, status})
+		}
+	}
+	sort.SliceStable(refTakes, func(i, j int) bool { return refTakes[i][0] < refTakes[j][0] })
+
 	// every Close() of a *Snapshot held by a local variable, with the chain of enclosing conditions: the
 	// release sites of the temporary references (events `release`), one per path
 	var snapCloses []c04Row
@@ -902,6 +1068,7 @@ func genC04(ctx *Ctx) {
 	b.WriteString(c04LeanTable("fieldWrites", "(function, struct, field, class of the base object) — assignments outside composite literals", 4, fieldWrites))
 	b.WriteString(c04LeanTable("viewMethodCalls", "(caller, method that writes view fields of its receiver, class of the receiver at the call)", 3, viewCalls))
 	b.WriteString(c04LeanTable("refCalls", "(function, reference-count method, number of call sites) for AddRef/DecRef (wrappers) and addRef/decRef (snapshots)", 3, refCalls))
+	b.WriteString(c04LeanTable("refTakes", "(function, addRef/AddRef, receiver, where the pointer comes from, lock region shared by the read of a shared pointer and the addRef)", 5, refTakes))
 	b.WriteString(c04LeanTable("snapshotCloses", "(function, snapshot expression, chain of enclosing conditions) for every Close() of a *Snapshot, in source order per function", 3, snapCloses))
 	b.WriteString(c04LeanTable("poolAccess", "(function, class of X) for every expression X.fieldTFRs", 2, poolAccess))
 	b.WriteString(c04LeanTable("recycleCalls", "(function, receiver expression, argument) of every call of recyclePostingsIterator", 3, recycleCalls))
@@ -915,6 +1082,7 @@ func genC04(ctx *Ctx) {
 	ctx.Summary["poolAccess"] = len(poolAccess)
 	ctx.Summary["refCalls"] = len(refCalls)
 	ctx.Summary["snapshotCloses"] = len(snapCloses)
+	ctx.Summary["refTakes"] = len(refTakes)
 	ctx.Summary["closeThenReuse"] = len(closeReuse)
 	ctx.Summary["recycleCalls"] = len(recycleCalls)
 	ctx.Summary["functions_scanned"] = len(names)
